@@ -1,1 +1,1598 @@
-//! (stub)
+//! G-fasta / G-fastq / G-gff / G-gtf / G-bed: plain serialisable models of the line-oriented
+//! formats, proptest strategies for them, harness-built renderings (`render()`), conversions to
+//! the noodles value types (`to_noodles()`), writers through noodles (`write_with_noodles()`), and
+//! a canonical one-line text per record (`canonical_text()`) for transcripts.
+//!
+//! API at a glance (every model is `Clone + Debug + Serialize + Deserialize + PartialEq`):
+//!   FASTA  `FastaDoc{records: Vec<FastaRec>, layout}` · `FastaDocSpec` (compact, `.expand()`) ·
+//!          `fasta_doc()`, `fasta_doc_spec(max_records, max_lines, max_width)` · `render()`,
+//!          `render_as_writer(w)`, `to_noodles()`, `write_with_noodles(w)`, `write_with_noodles_to(W, w)`
+//!          · `FastaRec::canonical_text()`, `canonical_fasta_record(&fasta::Record)`, `fasta_read_transcript(R)`
+//!   FASTQ  `FastqDoc{records: Vec<FastqRec>, layout}` · `fastq_doc(max_records)` · `render()`,
+//!          `render_as_writer()`, `to_noodles()`, `write_with_noodles()`, `write_with_noodles_to(W)` ·
+//!          `canonical_text()`, `canonical_fastq_record`, `fastq_read_transcript(R)`
+//!   GFF3   `GffDoc{lines: Vec<GffLine>}` (`Directive | Comment | Record(FeatRec)`) ·
+//!          `gff_doc(max_lines, seqid_plain_only, comments)` · `render(crlf, blank_every)`,
+//!          `to_noodles()`, `write_with_noodles()`, `write_with_noodles_to(W)` · `canonical_text()`,
+//!          `canonical_gff_line(&gff::LineBuf)`, `gff_read_transcript(R)`
+//!   GTF    `GtfDoc{lines: Vec<GtfLine>}` · `gtf_doc(max_lines, allow_quotes)` · `render(crlf)`,
+//!          `render_with(crlf, bare_numbers)`, `to_noodles()`, `write_with_noodles()` … `gtf_read_transcript(R)`
+//!   BED    `BedDoc{n: 3..=6, records: Vec<BedRec>, comments}` · `bed_doc(max_records)` · `render(crlf)`,
+//!          `write_with_noodles()`, `write_with_noodles_to(W)`, `BedRec::to_noodles_{3,4,5,6}()` ·
+//!          `BedRec::canonical_text(n)`, `bed_read_transcript(n, R)`
+//!
+//! No property-specific logic lives here. All strategies stay inside what the noodles writers
+//! validate (see the notes next to each generator); values a format cannot represent at all (a BED
+//! name that is the missing marker `.`, a GTF seqid starting with `#`, …) are never generated.
+
+use crate::r#gen::payload::XorShift;
+use bstr::BString;
+use noodles_bed as bed;
+use noodles_core::Position;
+use noodles_fasta as fasta;
+use noodles_fastq as fastq;
+use noodles_gff as gff;
+use noodles_gtf as gtf;
+use proptest::prelude::*;
+use serde::{Deserialize, Serialize};
+use std::io::{self, Write};
+use std::num::NonZero;
+
+// ------------------------------------------------------------------------------------------------
+// character / string helpers
+
+/// Weighted union of explicit character sets.
+pub fn chars_from(classes: Vec<(u32, Vec<char>)>) -> BoxedStrategy<char> {
+    let arms: Vec<(u32, BoxedStrategy<char>)> = classes.into_iter().filter(|(_, v)| !v.is_empty()).map(|(w, v)| (w, proptest::sample::select(v).boxed())).collect();
+    proptest::strategy::Union::new_weighted(arms).boxed()
+}
+
+pub fn string_of(ch: BoxedStrategy<char>, min: usize, max: usize) -> BoxedStrategy<String> {
+    proptest::collection::vec(ch, min..=max).prop_map(|v| v.into_iter().collect()).boxed()
+}
+
+fn range_chars(a: u8, b: u8) -> Vec<char> {
+    (a..=b).map(|x| x as char).collect()
+}
+
+pub fn alnum() -> Vec<char> {
+    let mut v = range_chars(b'a', b'z');
+    v.extend(range_chars(b'A', b'Z'));
+    v.extend(range_chars(b'0', b'9'));
+    v
+}
+
+/// Printable ASCII without space.
+pub fn graph() -> Vec<char> {
+    range_chars(0x21, 0x7e)
+}
+
+/// A few non-ASCII scalars of every UTF-8 length (2, 3 and 4 bytes).
+pub fn non_ascii() -> Vec<char> {
+    vec!['é', 'ß', '\u{a0}', 'Ω', '中', '\u{2028}', '€', '😀', '\u{10ffff}']
+}
+
+/// `[A-Za-z0-9_]{1,max}`
+pub fn ident(max: usize) -> BoxedStrategy<String> {
+    let mut v = alnum();
+    v.push('_');
+    string_of(proptest::sample::select(v).boxed(), 1, max)
+}
+
+fn hex(b: u8, upper: bool) -> [u8; 3] {
+    const LO: &[u8; 16] = b"0123456789abcdef";
+    const UP: &[u8; 16] = b"0123456789ABCDEF";
+    let t = if upper { UP } else { LO };
+    [b'%', t[(b >> 4) as usize], t[(b & 15) as usize]]
+}
+
+fn dedup_names<'a>(names: impl Iterator<Item = &'a mut String>) {
+    let mut seen: Vec<String> = Vec::new();
+    for (i, n) in names.enumerate() {
+        if seen.iter().any(|s| s == n) {
+            n.push_str(&format!("_{i}"));
+        }
+        seen.push(n.clone());
+    }
+}
+
+// ================================================================================================
+// FASTA
+
+#[derive(Clone, Debug, Serialize, Deserialize, PartialEq)]
+pub struct FastaRec {
+    /// non-empty, no ASCII whitespace
+    pub name: String,
+    /// `Some` ⇒ non-empty, no leading/trailing ASCII whitespace, no line terminators
+    pub description: Option<String>,
+    /// bases (ASCII letters, `*`, `-`)
+    pub seq: String,
+    /// bases per line used by `render()`
+    pub width: u16,
+    /// blank lines emitted after the last sequence line by `render()`
+    pub blank_after: u8,
+}
+
+#[derive(Clone, Debug, Serialize, Deserialize, PartialEq)]
+pub struct FastaLayout {
+    pub crlf: bool,
+    /// separator between name and description: 0 = one space, 1 = tab, 2 = two spaces
+    pub sep: u8,
+    /// `false`: the terminator of the very last line of the file is omitted
+    pub final_newline: bool,
+}
+
+impl Default for FastaLayout {
+    fn default() -> Self {
+        FastaLayout { crlf: false, sep: 0, final_newline: true }
+    }
+}
+
+#[derive(Clone, Debug, Serialize, Deserialize, PartialEq)]
+pub struct FastaDoc {
+    pub records: Vec<FastaRec>,
+    pub layout: FastaLayout,
+}
+
+impl FastaRec {
+    pub fn to_noodles(&self) -> fasta::Record {
+        use fasta::record::{Definition, Sequence};
+        fasta::Record::new(Definition::new(self.name.as_bytes(), self.description.as_ref().map(|d| BString::from(d.as_bytes()))), Sequence::from(self.seq.as_bytes().to_vec()))
+    }
+
+    pub fn canonical_text(&self) -> String {
+        canonical_fasta(self.name.as_bytes(), self.description.as_ref().map(|d| d.as_bytes()), self.seq.as_bytes())
+    }
+}
+
+pub fn canonical_fasta(name: &[u8], description: Option<&[u8]>, seq: &[u8]) -> String {
+    format!("fasta name={:?} desc={:?} seq={}", BString::from(name), description.map(BString::from), String::from_utf8_lossy(seq))
+}
+
+/// Canonical text of a record read by noodles (same form as `FastaRec::canonical_text`).
+pub fn canonical_fasta_record(r: &fasta::Record) -> String {
+    canonical_fasta(r.name(), r.description().map(|d| { let b: &[u8] = d.as_ref(); b }), r.sequence().as_ref())
+}
+
+impl FastaDoc {
+    /// The file as the harness builds it: each record wrapped at its own `width`, the layout's
+    /// terminator, `blank_after` empty lines after a record.
+    pub fn render(&self) -> Vec<u8> {
+        let nl: &[u8] = if self.layout.crlf { b"\r\n" } else { b"\n" };
+        let mut out = Vec::new();
+        for r in &self.records {
+            out.push(b'>');
+            out.extend_from_slice(r.name.as_bytes());
+            if let Some(d) = &r.description {
+                out.extend_from_slice(match self.layout.sep {
+                    1 => b"\t",
+                    2 => b"  ",
+                    _ => b" ",
+                });
+                out.extend_from_slice(d.as_bytes());
+            }
+            out.extend_from_slice(nl);
+            for line in r.seq.as_bytes().chunks(r.width.max(1) as usize) {
+                out.extend_from_slice(line);
+                out.extend_from_slice(nl);
+            }
+            for _ in 0..r.blank_after {
+                out.extend_from_slice(nl);
+            }
+        }
+        if !self.layout.final_newline && out.ends_with(nl) {
+            out.truncate(out.len() - nl.len());
+        }
+        out
+    }
+
+    /// The bytes `fasta::io::Writer` must produce at `line_bases`: LF, no blank lines, one space
+    /// before the description.
+    pub fn render_as_writer(&self, line_bases: usize) -> Vec<u8> {
+        let d = FastaDoc {
+            records: self.records.iter().map(|r| FastaRec { width: line_bases.min(u16::MAX as usize) as u16, blank_after: 0, ..r.clone() }).collect(),
+            layout: FastaLayout::default(),
+        };
+        d.render()
+    }
+
+    pub fn to_noodles(&self) -> Vec<fasta::Record> {
+        self.records.iter().map(|r| r.to_noodles()).collect()
+    }
+
+    pub fn write_with_noodles_to<W: Write>(&self, w: W, line_bases: usize) -> io::Result<W> {
+        let lb = NonZero::new(line_bases.max(1)).unwrap_or(NonZero::<usize>::MIN);
+        let mut writer = fasta::io::writer::Builder::default().set_line_base_count(lb).build_from_writer(w);
+        for r in self.to_noodles() {
+            writer.write_record(&r)?;
+        }
+        Ok(writer.into_inner())
+    }
+
+    pub fn write_with_noodles(&self, line_bases: usize) -> io::Result<Vec<u8>> {
+        self.write_with_noodles_to(Vec::new(), line_bases)
+    }
+}
+
+/// Compact description of a FASTA record: the sequence is expanded from `(len, seed)`.
+#[derive(Clone, Debug, Serialize, Deserialize, PartialEq)]
+pub struct FastaRecSpec {
+    pub name: String,
+    pub description: Option<String>,
+    pub len: u32,
+    pub seed: u32,
+    pub width: u16,
+    pub blank_after: u8,
+}
+
+#[derive(Clone, Debug, Serialize, Deserialize, PartialEq)]
+pub struct FastaDocSpec {
+    pub records: Vec<FastaRecSpec>,
+    pub layout: FastaLayout,
+}
+
+const BASES: &[u8] = b"ACGTACGTACGTNacgtnRYKMSWBDHV*-";
+
+pub fn expand_seq(len: u32, seed: u32) -> String {
+    let mut r = XorShift::new(seed as u64 + 0x5eed);
+    let mut s = String::with_capacity(len as usize);
+    for _ in 0..len {
+        s.push(BASES[(r.next() % BASES.len() as u64) as usize] as char);
+    }
+    s
+}
+
+impl FastaDocSpec {
+    pub fn expand(&self) -> FastaDoc {
+        FastaDoc {
+            records: self
+                .records
+                .iter()
+                .map(|r| FastaRec { name: r.name.clone(), description: r.description.clone(), seq: expand_seq(r.len, r.seed), width: r.width.max(1), blank_after: r.blank_after })
+                .collect(),
+            layout: self.layout.clone(),
+        }
+    }
+}
+
+/// FASTA / FASTQ names: non-empty, no whitespace; mostly identifiers, sometimes any printable
+/// ASCII (incl. `>`, `@`, `:`, `|`) or non-ASCII UTF-8.
+pub fn seq_name() -> BoxedStrategy<String> {
+    let wide = chars_from(vec![(6, alnum()), (3, graph()), (1, non_ascii())]);
+    prop_oneof![
+        4 => ident(8),
+        2 => string_of(wide, 1, 12),
+        1 => (ident(4), 1u32..30, ident(3)).prop_map(|(a, n, b)| format!("{a}|{n}:{b}.1")),
+    ]
+    .boxed()
+}
+
+/// Free text for FASTA descriptions: printable ASCII with inner spaces/tabs, some UTF-8; first and
+/// last characters are never whitespace; never empty.
+pub fn description_text() -> BoxedStrategy<String> {
+    let mut inner = graph();
+    inner.push(' ');
+    inner.push(' ');
+    inner.push('\t');
+    let inner = chars_from(vec![(8, inner), (1, non_ascii())]);
+    let edge = chars_from(vec![(8, graph()), (1, non_ascii())]);
+    (edge.clone(), string_of(inner, 0, 20), proptest::option::of(edge)).prop_map(|(a, mid, z)| {
+        let mut s = String::new();
+        s.push(a);
+        if let Some(z) = z {
+            s.push_str(&mid);
+            s.push(z);
+        }
+        s
+    })
+    .boxed()
+}
+
+pub fn line_width(max: u16) -> BoxedStrategy<u16> {
+    let max = max.max(1);
+    let named: Vec<u16> = vec![1, 2, 3, 4, 5, 7, 8, 10, 50, 59, 60, 61, 63, 64, 65, 70, 79, 80, 81, 100, 127, 128, 199, 200].into_iter().filter(|w| *w <= max).collect();
+    prop_oneof![
+        3 => proptest::sample::select(named),
+        3 => 1u16..=max.min(12),
+        2 => 1u16..=max,
+    ]
+    .boxed()
+}
+
+fn fasta_rec_spec(width: BoxedStrategy<u16>, max_lines: u32) -> BoxedStrategy<FastaRecSpec> {
+    (
+        seq_name(),
+        proptest::option::weighted(0.4, description_text()),
+        width,
+        1u32..=max_lines.max(1),
+        // 0 = full last line, otherwise a selector for 1..=width
+        prop_oneof![1 => Just(0u16), 3 => 1u16..=u16::MAX],
+        any::<u32>(),
+        prop_oneof![3 => Just(0u8), 2 => Just(1u8), 1 => Just(2u8)],
+    )
+        .prop_map(|(name, description, width, lines, last_sel, seed, blank_after)| {
+            let w = width.max(1) as u32;
+            let last = if last_sel == 0 { w } else { 1 + ((last_sel as u32 - 1) * w >> 16).min(w - 1) };
+            FastaRecSpec { name, description, len: (lines - 1) * w + last, seed, width, blank_after }
+        })
+        .boxed()
+}
+
+pub fn fasta_layout() -> BoxedStrategy<FastaLayout> {
+    (prop_oneof![3 => Just(false), 2 => Just(true)], prop_oneof![6 => Just(0u8), 1 => Just(1u8), 1 => Just(2u8)], prop_oneof![9 => Just(true), 1 => Just(false)])
+        .prop_map(|(crlf, sep, final_newline)| FastaLayout { crlf, sep, final_newline })
+        .boxed()
+}
+
+/// 1..=`max_records` records of 1..=`max_lines` lines at widths 1..=`max_width`; two thirds of the
+/// documents use one width for all records.
+pub fn fasta_doc_spec(max_records: usize, max_lines: u32, max_width: u16) -> BoxedStrategy<FastaDocSpec> {
+    let uniform = line_width(max_width).prop_flat_map(move |w| proptest::collection::vec(fasta_rec_spec(Just(w).boxed(), max_lines), 1..=max_records));
+    let mixed = proptest::collection::vec(fasta_rec_spec(line_width(max_width), max_lines), 1..=max_records);
+    // blank lines are a document-level decision (one document in four), so that most documents
+    // stay strictly uniform
+    (prop_oneof![2 => uniform.boxed(), 1 => mixed.boxed()], fasta_layout(), prop_oneof![3 => Just(false), 1 => Just(true)])
+        .prop_map(|(mut records, layout, blanks)| {
+            if !blanks {
+                records.iter_mut().for_each(|r| r.blank_after = 0);
+            }
+            dedup_names(records.iter_mut().map(|r| &mut r.name));
+            FastaDocSpec { records, layout }
+        })
+        .boxed()
+}
+
+pub fn fasta_doc() -> BoxedStrategy<FastaDoc> {
+    fasta_doc_spec(6, 5, 200).prop_map(|s| s.expand()).boxed()
+}
+
+// ================================================================================================
+// FASTQ
+
+#[derive(Clone, Debug, Serialize, Deserialize, PartialEq)]
+pub struct FastqRec {
+    /// no space, tab or line terminator
+    pub name: String,
+    /// may be empty; no line terminators
+    pub description: String,
+    pub seq: String,
+    /// same length as `seq`; `!`..`~`
+    pub qual: String,
+}
+
+#[derive(Clone, Debug, Serialize, Deserialize, PartialEq)]
+pub struct FastqLayout {
+    pub crlf: bool,
+    /// name/description separator: tab instead of space
+    pub sep_tab: bool,
+    /// `render()` repeats the definition after `+`
+    pub plus_repeats_name: bool,
+    pub final_newline: bool,
+}
+
+impl Default for FastqLayout {
+    fn default() -> Self {
+        FastqLayout { crlf: false, sep_tab: false, plus_repeats_name: false, final_newline: true }
+    }
+}
+
+#[derive(Clone, Debug, Serialize, Deserialize, PartialEq)]
+pub struct FastqDoc {
+    pub records: Vec<FastqRec>,
+    pub layout: FastqLayout,
+}
+
+pub fn canonical_fastq(name: &[u8], description: &[u8], seq: &[u8], qual: &[u8]) -> String {
+    format!("fastq name={:?} desc={:?} seq={} qual={:?}", BString::from(name), BString::from(description), String::from_utf8_lossy(seq), BString::from(qual))
+}
+
+pub fn canonical_fastq_record(r: &fastq::Record) -> String {
+    canonical_fastq(r.name(), r.description(), r.sequence(), r.quality_scores())
+}
+
+impl FastqRec {
+    pub fn to_noodles(&self) -> fastq::Record {
+        fastq::Record::new(fastq::record::Definition::new(self.name.as_bytes(), self.description.as_bytes()), self.seq.as_bytes(), self.qual.as_bytes())
+    }
+    pub fn canonical_text(&self) -> String {
+        canonical_fastq(self.name.as_bytes(), self.description.as_bytes(), self.seq.as_bytes(), self.qual.as_bytes())
+    }
+}
+
+impl FastqDoc {
+    pub fn render(&self) -> Vec<u8> {
+        let nl: &[u8] = if self.layout.crlf { b"\r\n" } else { b"\n" };
+        let mut out = Vec::new();
+        for r in &self.records {
+            let mut def = Vec::new();
+            def.extend_from_slice(r.name.as_bytes());
+            if !r.description.is_empty() {
+                def.push(if self.layout.sep_tab { b'\t' } else { b' ' });
+                def.extend_from_slice(r.description.as_bytes());
+            }
+            out.push(b'@');
+            out.extend_from_slice(&def);
+            out.extend_from_slice(nl);
+            out.extend_from_slice(r.seq.as_bytes());
+            out.extend_from_slice(nl);
+            out.push(b'+');
+            if self.layout.plus_repeats_name {
+                out.extend_from_slice(&def);
+            }
+            out.extend_from_slice(nl);
+            out.extend_from_slice(r.qual.as_bytes());
+            out.extend_from_slice(nl);
+        }
+        if !self.layout.final_newline && out.ends_with(nl) {
+            out.truncate(out.len() - nl.len());
+        }
+        out
+    }
+
+    /// The bytes `fastq::io::Writer` must produce (LF, bare `+`).
+    pub fn render_as_writer(&self) -> Vec<u8> {
+        FastqDoc { records: self.records.clone(), layout: FastqLayout { crlf: false, plus_repeats_name: false, final_newline: true, sep_tab: self.layout.sep_tab } }.render()
+    }
+
+    pub fn to_noodles(&self) -> Vec<fastq::Record> {
+        self.records.iter().map(|r| r.to_noodles()).collect()
+    }
+
+    /// (`fastq::io::writer::Builder` boxes the sink, hence `'static` and no way to get it back:
+    /// pass a shared sink.)
+    pub fn write_with_noodles_to<W: Write + 'static>(&self, w: W) -> io::Result<()> {
+        let sep = if self.layout.sep_tab { b'\t' } else { b' ' };
+        let mut writer = fastq::io::writer::Builder::default().set_definition_separator(sep).build_from_writer(w);
+        for r in self.to_noodles() {
+            writer.write_record(&r)?;
+        }
+        writer.get_mut().flush()
+    }
+
+    pub fn write_with_noodles(&self) -> io::Result<Vec<u8>> {
+        let sink = crate::io_adv::sink::SharedSink::new();
+        self.write_with_noodles_to(sink.clone())?;
+        Ok(sink.bytes())
+    }
+}
+
+/// Quality strings: `!`..`~`, with `@` and `+` (the two line-prefix characters of the format)
+/// over-represented and often first.
+pub fn quality_string(len: usize) -> BoxedStrategy<String> {
+    if len == 0 {
+        return Just(String::new()).boxed();
+    }
+    let body = chars_from(vec![(6, range_chars(b'!', b'~')), (2, vec!['@', '+']), (1, vec!['I', '#', '!', '~'])]);
+    let first = chars_from(vec![(3, vec!['@', '+']), (4, range_chars(b'!', b'~'))]);
+    (first, string_of(body, len - 1, len - 1)).prop_map(|(f, rest)| {
+        let mut s = String::with_capacity(rest.len() + 1);
+        s.push(f);
+        s.push_str(&rest);
+        s
+    })
+    .boxed()
+}
+
+pub fn fastq_rec() -> BoxedStrategy<FastqRec> {
+    let mut inner = graph();
+    inner.push(' ');
+    inner.push('\t');
+    let desc_ch = chars_from(vec![(8, inner), (1, non_ascii())]);
+    let len = prop_oneof![1 => Just(0usize), 6 => 1usize..=40, 2 => 41usize..=300];
+    (seq_name(), prop_oneof![2 => Just(String::new()).boxed(), 1 => string_of(desc_ch, 1, 16)], len, any::<u32>())
+        .prop_flat_map(|(name, description, len, seed)| {
+            quality_string(len).prop_map(move |qual| {
+                let seq: String = expand_seq(len as u32, seed).chars().map(|c| if c == '*' || c == '-' { 'N' } else { c }).collect();
+                FastqRec { name: name.clone(), description: description.clone(), seq, qual }
+            })
+        })
+        .boxed()
+}
+
+pub fn fastq_layout() -> BoxedStrategy<FastqLayout> {
+    (any::<bool>(), prop_oneof![3 => Just(false), 1 => Just(true)], prop_oneof![3 => Just(false), 1 => Just(true)], prop_oneof![9 => Just(true), 1 => Just(false)])
+        .prop_map(|(crlf, sep_tab, plus_repeats_name, final_newline)| FastqLayout { crlf, sep_tab, plus_repeats_name, final_newline })
+        .boxed()
+}
+
+pub fn fastq_doc(max_records: usize) -> BoxedStrategy<FastqDoc> {
+    (proptest::collection::vec(fastq_rec(), 1..=max_records), fastq_layout())
+        .prop_map(|(mut records, layout)| {
+            dedup_names(records.iter_mut().map(|r| &mut r.name));
+            FastqDoc { records, layout }
+        })
+        .boxed()
+}
+
+// ================================================================================================
+// GFF3 / GTF feature records (both use `gff::feature::RecordBuf`)
+
+#[derive(Clone, Copy, Debug, Serialize, Deserialize, PartialEq, Eq)]
+pub enum FeatStrand {
+    None,
+    Forward,
+    Reverse,
+    Unknown,
+}
+
+impl FeatStrand {
+    pub fn to_noodles(self) -> gff::feature::record::Strand {
+        use gff::feature::record::Strand as S;
+        match self {
+            FeatStrand::None => S::None,
+            FeatStrand::Forward => S::Forward,
+            FeatStrand::Reverse => S::Reverse,
+            FeatStrand::Unknown => S::Unknown,
+        }
+    }
+    pub fn from_noodles(s: gff::feature::record::Strand) -> FeatStrand {
+        use gff::feature::record::Strand as S;
+        match s {
+            S::None => FeatStrand::None,
+            S::Forward => FeatStrand::Forward,
+            S::Reverse => FeatStrand::Reverse,
+            S::Unknown => FeatStrand::Unknown,
+        }
+    }
+    pub fn symbol(self) -> &'static str {
+        match self {
+            FeatStrand::None => ".",
+            FeatStrand::Forward => "+",
+            FeatStrand::Reverse => "-",
+            FeatStrand::Unknown => "?",
+        }
+    }
+}
+
+/// One feature line of GFF3 or GTF.
+#[derive(Clone, Debug, Serialize, Deserialize, PartialEq)]
+pub struct FeatRec {
+    pub seqid: String,
+    pub source: String,
+    pub ty: String,
+    /// 1-based, `start <= end`
+    pub start: u64,
+    pub end: u64,
+    /// IEEE-754 bits of the f32 score (finite), `None` = missing
+    pub score_bits: Option<u32>,
+    pub strand: FeatStrand,
+    /// 0..=2
+    pub phase: Option<u8>,
+    /// unique tags; 1 value = string, ≥2 values = ordered array
+    pub attrs: Vec<(String, Vec<String>)>,
+}
+
+fn pos(n: u64) -> Result<Position, String> {
+    usize::try_from(n).ok().and_then(|n| Position::try_from(n).ok()).ok_or_else(|| format!("{n} is not a position"))
+}
+
+fn phase_to_noodles(p: u8) -> gff::feature::record::Phase {
+    use gff::feature::record::Phase as P;
+    match p {
+        0 => P::Zero,
+        1 => P::One,
+        _ => P::Two,
+    }
+}
+
+fn phase_from_noodles(p: gff::feature::record::Phase) -> u8 {
+    use gff::feature::record::Phase as P;
+    match p {
+        P::Zero => 0,
+        P::One => 1,
+        P::Two => 2,
+    }
+}
+
+impl FeatRec {
+    pub fn score(&self) -> Option<f32> {
+        self.score_bits.map(f32::from_bits)
+    }
+
+    pub fn to_noodles(&self) -> Result<gff::feature::RecordBuf, String> {
+        use gff::feature::record_buf::attributes::field::Value;
+        let mut b = gff::feature::RecordBuf::builder()
+            .set_reference_sequence_name(self.seqid.as_bytes())
+            .set_source(self.source.as_bytes())
+            .set_type(self.ty.as_bytes())
+            .set_start(pos(self.start)?)
+            .set_end(pos(self.end)?)
+            .set_strand(self.strand.to_noodles());
+        if let Some(s) = self.score() {
+            b = b.set_score(s);
+        }
+        if let Some(p) = self.phase {
+            b = b.set_phase(phase_to_noodles(p));
+        }
+        let attrs: gff::feature::record_buf::Attributes = self
+            .attrs
+            .iter()
+            .map(|(k, vs)| {
+                let v = if vs.len() == 1 { Value::String(BString::from(vs[0].as_bytes())) } else { Value::Array(vs.iter().map(|v| BString::from(v.as_bytes())).collect()) };
+                (BString::from(k.as_bytes()), v)
+            })
+            .collect();
+        Ok(b.set_attributes(attrs).build())
+    }
+
+    /// Inverse of `to_noodles` (lossy for non-UTF-8 bytes, which the generators never produce).
+    pub fn from_noodles(r: &gff::feature::RecordBuf) -> FeatRec {
+        let s = |b: &[u8]| String::from_utf8_lossy(b).into_owned();
+        FeatRec {
+            seqid: s(r.reference_sequence_name()),
+            source: s(r.source()),
+            ty: s(r.ty()),
+            start: usize::from(r.start()) as u64,
+            end: usize::from(r.end()) as u64,
+            score_bits: r.score().map(f32::to_bits),
+            strand: FeatStrand::from_noodles(r.strand()),
+            phase: r.phase().map(phase_from_noodles),
+            attrs: r.attributes().as_ref().iter().map(|(k, v)| (s(k), v.iter().map(|x| s(x)).collect())).collect(),
+        }
+    }
+
+    pub fn canonical_text(&self) -> String {
+        format!(
+            "feature seqid={:?} source={:?} type={:?} {}-{} score={:?} strand={} phase={:?} attrs={:?}",
+            self.seqid,
+            self.source,
+            self.ty,
+            self.start,
+            self.end,
+            self.score(),
+            self.strand.symbol(),
+            self.phase,
+            self.attrs
+        )
+    }
+
+    fn render_columns_2_to_8(&self, out: &mut Vec<u8>) {
+        out.push(b'\t');
+        out.extend_from_slice(self.source.as_bytes());
+        out.push(b'\t');
+        out.extend_from_slice(self.ty.as_bytes());
+        out.extend_from_slice(format!("\t{}\t{}\t", self.start, self.end).as_bytes());
+        match self.score() {
+            Some(s) => out.extend_from_slice(format!("{s}").as_bytes()),
+            None => out.push(b'.'),
+        }
+        out.push(b'\t');
+        out.extend_from_slice(self.strand.symbol().as_bytes());
+        out.push(b'\t');
+        match self.phase {
+            Some(p) => out.push(b'0' + p.min(2)),
+            None => out.push(b'.'),
+        }
+        out.push(b'\t');
+    }
+
+    /// GFF3 line (no terminator) built by the harness from the GFF3 specification: seqid escapes
+    /// everything outside `[a-zA-Z0-9.:^*$@!+_?-|]`; attribute tags and values escape tab, LF, CR,
+    /// `%`, control characters and `; = & ,`; other bytes (UTF-8 included) are written raw, hex
+    /// digits in lower case (noodles writes upper case and escapes non-ASCII: the reader must cope
+    /// with both).
+    pub fn render_gff3(&self) -> Vec<u8> {
+        let mut out = Vec::new();
+        for b in self.seqid.bytes() {
+            if b.is_ascii_alphanumeric() || b".:^*$@!+_?-|".contains(&b) {
+                out.push(b);
+            } else {
+                out.extend_from_slice(&hex(b, true));
+            }
+        }
+        self.render_columns_2_to_8(&mut out);
+        if self.attrs.is_empty() {
+            out.push(b'.');
+        }
+        let enc = |s: &str, out: &mut Vec<u8>| {
+            for b in s.bytes() {
+                if b < 0x20 || b == 0x7f || b"%;=&,".contains(&b) {
+                    out.extend_from_slice(&hex(b, false));
+                } else {
+                    out.push(b);
+                }
+            }
+        };
+        for (i, (k, vs)) in self.attrs.iter().enumerate() {
+            if i > 0 {
+                out.push(b';');
+            }
+            enc(k, &mut out);
+            out.push(b'=');
+            for (j, v) in vs.iter().enumerate() {
+                if j > 0 {
+                    out.push(b',');
+                }
+                enc(v, &mut out);
+            }
+        }
+        out
+    }
+
+    /// GTF line (no terminator) built by the harness: `key "value";` fields separated by one
+    /// space, `\` and `"` escaped with a backslash, a multi-valued attribute repeated per value.
+    pub fn render_gtf(&self) -> Vec<u8> {
+        self.render_gtf_with(false)
+    }
+
+    /// `bare_numbers`: values made of ASCII digits only are written without quotes (the GTF
+    /// convention for numeric values such as `exon_number 1;`).
+    pub fn render_gtf_with(&self, bare_numbers: bool) -> Vec<u8> {
+        let mut out = Vec::new();
+        out.extend_from_slice(self.seqid.as_bytes());
+        self.render_columns_2_to_8(&mut out);
+        let mut first = true;
+        for (k, vs) in &self.attrs {
+            for v in vs {
+                if !first {
+                    out.push(b' ');
+                }
+                first = false;
+                out.extend_from_slice(k.as_bytes());
+                if bare_numbers && !v.is_empty() && v.bytes().all(|b| b.is_ascii_digit()) {
+                    out.push(b' ');
+                    out.extend_from_slice(v.as_bytes());
+                    out.push(b';');
+                    continue;
+                }
+                out.extend_from_slice(b" \"");
+                for b in v.bytes() {
+                    if b == b'\\' || b == b'"' {
+                        out.push(b'\\');
+                    }
+                    out.push(b);
+                }
+                out.extend_from_slice(b"\";");
+            }
+        }
+        out
+    }
+}
+
+/// Finite f32 scores: small integers, decimals, negative values, signed zero, extremes,
+/// subnormals, arbitrary finite bit patterns.
+pub fn score_bits() -> BoxedStrategy<Option<u32>> {
+    let named: Vec<f32> = vec![0.0, -0.0, 1.0, 0.5, 0.1, 1e-5, 1e-10, 99.9, 1000.0, -1.5, 3.4028235e38, -3.4028235e38, f32::MIN_POSITIVE, 1e-45, 16777216.0, 16777217.0, 0.333333343, 1.17549421e-38, 8388608.5, 1e10, 123456.79];
+    prop_oneof![
+        3 => Just(None),
+        2 => (0u32..=1000).prop_map(|n| Some((n as f32).to_bits())),
+        2 => (0u32..=100_000).prop_map(|n| Some((n as f32 / 100.0).to_bits())),
+        2 => proptest::sample::select(named).prop_map(|f| Some(f.to_bits())),
+        2 => any::<u32>().prop_map(|b| {
+            let f = f32::from_bits(b);
+            Some(if f.is_finite() { b } else { (b & 0x807f_ffff) | 0x3f00_0000 })
+        }),
+    ]
+    .boxed()
+}
+
+pub fn coords() -> BoxedStrategy<(u64, u64)> {
+    let start = prop_oneof![
+        4 => 1u64..=10_000,
+        2 => 1u64..=3_000_000_000,
+        1 => proptest::sample::select(vec![1u64, 2, 255, 256, 65_535, 65_536, (1 << 29) - 1, 1 << 29, (1 << 31) - 1, 1 << 31, (1 << 32) - 1, 1 << 32, u64::MAX - 1, u64::MAX]),
+    ];
+    let len = prop_oneof![2 => Just(0u64), 4 => 0u64..=5_000, 1 => 0u64..=4_000_000_000];
+    (start, len).prop_map(|(s, l)| (s, s.saturating_add(l))).boxed()
+}
+
+/// GFF3 free text: every class the property lists (tab, LF, CR, `; = & , %`, other controls,
+/// quotes, `>`/`#` — also leading —, spaces, UTF-8 of every length, `%41`-like literals).
+pub fn gff3_text(min: usize, max: usize) -> BoxedStrategy<String> {
+    let reserved = vec!['\t', '\n', '\r', ';', '=', '&', ',', '%'];
+    let punct = vec![' ', '>', '#', '"', '\\', '\'', '.', ':', '/', '+', '-', '|', '?', '*', '(', ')', '[', ']', '~', '^', '$', '@', '!', '_'];
+    let controls: Vec<char> = (1u8..=0x1f).filter(|b| ![9u8, 10, 13].contains(b)).chain([0x7fu8, 0u8]).map(|b| b as char).collect();
+    let ch = chars_from(vec![(8, alnum()), (4, reserved), (3, punct), (1, controls), (2, non_ascii())]);
+    let plain = string_of(chars_from(vec![(1, alnum())]), min.max(1), max.max(1));
+    let body = string_of(ch, min, max);
+    prop_oneof![
+        3 => plain,
+        6 => body.clone(),
+        1 => (proptest::sample::select(vec![">", "#", "##", "%41", "%", "%2", "%zz", ".", " ", "%25", "a,b", "x=y;z"]), body).prop_map(move |(p, b)| {
+            let mut s = String::from(p);
+            s.push_str(&b);
+            s
+        }),
+    ]
+    .boxed()
+}
+
+/// Plain columns (GFF3 source/type, GTF seqid/source/type): anything but tab and line
+/// terminators; never empty unless `allow_empty`.
+pub fn plain_column(allow_empty: bool) -> BoxedStrategy<String> {
+    let mut wide = graph();
+    wide.push(' ');
+    let ch = chars_from(vec![(8, alnum()), (4, wide), (1, non_ascii())]);
+    let named = proptest::sample::select(vec!["gene", "mRNA", "exon", "CDS", "region", "five_prime_UTR", ".", "noodles", "%41", "SO:0000704", "a b", "cds", "CDS "]).prop_map(String::from);
+    if allow_empty {
+        prop_oneof![4 => named, 3 => ident(10), 3 => string_of(ch, 1, 12), 1 => Just(String::new())].boxed()
+    } else {
+        prop_oneof![4 => named, 3 => ident(10), 3 => string_of(ch, 1, 12)].boxed()
+    }
+}
+
+fn unique_keys<V>(attrs: Vec<(String, V)>) -> Vec<(String, V)> {
+    let mut out: Vec<(String, V)> = Vec::new();
+    for (k, v) in attrs {
+        if !out.iter().any(|(k2, _)| *k2 == k) {
+            out.push((k, v));
+        }
+    }
+    out
+}
+
+/// GFF3 records. `seqid_plain_only`: keep the seqid inside the characters the writer leaves
+/// unescaped (the class outside it is a recorded defect of the pinned tree; callers that cannot
+/// collect several failures per case switch it off).
+pub fn gff3_rec(seqid_plain_only: bool) -> BoxedStrategy<FeatRec> {
+    let safe: Vec<char> = alnum().into_iter().chain(".:^*$@!+_?-|".chars()).collect();
+    let safe_id = string_of(chars_from(vec![(6, alnum()), (2, safe)]), 1, 12);
+    let seqid = if seqid_plain_only { safe_id.boxed() } else { prop_oneof![9 => safe_id.boxed(), 1 => gff3_text(0, 10)].boxed() };
+    let tag = prop_oneof![
+        3 => proptest::sample::select(vec!["ID", "Name", "Alias", "Parent", "Target", "Gap", "Derives_from", "Note", "Dbxref", "Ontology_term", "Is_circular"]).prop_map(String::from),
+        3 => ident(8),
+        3 => gff3_text(0, 8),
+    ];
+    let values = prop_oneof![
+        5 => proptest::collection::vec(gff3_text(0, 12), 1..=1),
+        4 => proptest::collection::vec(gff3_text(0, 8), 2..=4),
+    ];
+    let attrs = prop_oneof![
+        2 => Just(Vec::new()).boxed(),
+        8 => proptest::collection::vec((tag, values), 1..=5).prop_map(unique_keys).boxed(),
+    ];
+    (seqid, plain_column(true), plain_column(true), coords(), score_bits(), proptest::sample::select(vec![FeatStrand::None, FeatStrand::Forward, FeatStrand::Reverse, FeatStrand::Unknown]), proptest::option::weighted(0.4, 0u8..=2), attrs)
+        .prop_map(|(seqid, source, ty, (start, end), score_bits, strand, mut phase, attrs)| {
+            // the writer rejects a CDS without phase (documented): keep generated records writable
+            if ty == "CDS" && phase.is_none() {
+                phase = Some((start % 3) as u8);
+            }
+            FeatRec { seqid, source, ty, start, end, score_bits, strand, phase, attrs }
+        })
+        .boxed()
+}
+
+/// GTF attribute values: anything but tab and line terminators, quotes and backslashes
+/// over-represented (also leading, trailing and doubled).
+pub fn gtf_value() -> BoxedStrategy<String> {
+    let mut wide = graph();
+    wide.push(' ');
+    let ch = chars_from(vec![(8, alnum()), (3, vec!['"', '\\']), (3, wide), (1, vec![';', ' ', '#']), (1, non_ascii())]);
+    prop_oneof![
+        2 => ident(10),
+        1 => (0u32..100_000).prop_map(|n| n.to_string()),
+        6 => string_of(ch, 0, 14),
+        1 => proptest::sample::select(vec!["\"", "\\", "\\\\", "\"\"", "a\\", "\\\"", "x\";y \"z", "a; b \"c\";", ""]).prop_map(String::from),
+    ]
+    .boxed()
+}
+
+/// GTF records: raw seqid/source/type over delimiter-free alphabets (seqid never starts with `#`,
+/// which would make the line a comment, and is never empty), strands without `?` (rejected by the
+/// writer), keys `[A-Za-z0-9_.:-]+` or UTF-8 letters without spaces, 0..n attributes with 1..k
+/// values.
+pub fn gtf_rec() -> BoxedStrategy<FeatRec> {
+    let key_ch = chars_from(vec![(8, alnum()), (2, vec!['_', '.', ':', '-']), (1, vec!['é', '中', 'Ω'])]);
+    let key = prop_oneof![3 => proptest::sample::select(vec!["gene_id", "transcript_id", "exon_number", "gene_name", "tag"]).prop_map(String::from), 3 => string_of(key_ch, 1, 10)];
+    let values = prop_oneof![5 => proptest::collection::vec(gtf_value(), 1..=1), 3 => proptest::collection::vec(gtf_value(), 2..=4)];
+    let attrs = prop_oneof![1 => Just(Vec::new()).boxed(), 8 => proptest::collection::vec((key, values), 1..=5).prop_map(unique_keys).boxed()];
+    let seqid = plain_column(false).prop_map(|s| if s.starts_with('#') { format!("c{s}") } else { s });
+    (seqid, plain_column(true), plain_column(true), coords(), score_bits(), proptest::sample::select(vec![FeatStrand::None, FeatStrand::Forward, FeatStrand::Reverse]), proptest::option::weighted(0.4, 0u8..=2), attrs)
+        .prop_map(|(seqid, source, ty, (start, end), score_bits, strand, phase, attrs)| FeatRec { seqid, source, ty, start, end, score_bits, strand, phase, attrs })
+        .boxed()
+}
+
+// ------------------------------------------------------------------------------------------------
+// GFF3 documents
+
+#[derive(Clone, Debug, Serialize, Deserialize, PartialEq)]
+pub enum GffDirective {
+    /// `##gff-version major[.minor[.patch]]`
+    Version { major: u32, minor: Option<u32>, patch: Option<u32> },
+    /// `##sequence-region name start end`
+    SequenceRegion { name: String, start: u64, end: u64 },
+    /// `##genome-build source name`
+    GenomeBuild { source: String, name: String },
+    /// any other `##key[ value]`; key without whitespace, value without line terminators
+    Other { key: String, value: Option<String> },
+}
+
+#[derive(Clone, Debug, Serialize, Deserialize, PartialEq)]
+pub enum GffLine {
+    Directive(GffDirective),
+    /// text after the `#`; never starts with `#`, no line terminators
+    Comment(String),
+    Record(FeatRec),
+}
+
+#[derive(Clone, Debug, Serialize, Deserialize, PartialEq)]
+pub struct GffDoc {
+    pub lines: Vec<GffLine>,
+}
+
+impl GffDirective {
+    /// (key, value text) as the line carries them
+    pub fn key_value(&self) -> (String, Option<String>) {
+        match self {
+            GffDirective::Version { major, minor, patch } => {
+                let mut v = major.to_string();
+                if let Some(m) = minor {
+                    v.push_str(&format!(".{m}"));
+                    if let Some(p) = patch {
+                        v.push_str(&format!(".{p}"));
+                    }
+                }
+                ("gff-version".into(), Some(v))
+            }
+            GffDirective::SequenceRegion { name, start, end } => ("sequence-region".into(), Some(format!("{name} {start} {end}"))),
+            GffDirective::GenomeBuild { source, name } => ("genome-build".into(), Some(format!("{source} {name}"))),
+            GffDirective::Other { key, value } => (key.clone(), value.clone()),
+        }
+    }
+
+    pub fn to_noodles(&self) -> Result<gff::DirectiveBuf, String> {
+        use gff::directive_buf::{Value, value};
+        Ok(match self {
+            GffDirective::Version { .. } => {
+                let (k, v) = self.key_value();
+                let ver: value::GffVersion = v.unwrap_or_default().parse().map_err(|e| format!("gff-version: {e}"))?;
+                gff::DirectiveBuf::new(k, Some(Value::GffVersion(ver)))
+            }
+            GffDirective::SequenceRegion { name, start, end } => gff::DirectiveBuf::new("sequence-region", Some(Value::SequenceRegion(value::SequenceRegion::new(name.as_bytes(), pos(*start)?, pos(*end)?)))),
+            GffDirective::GenomeBuild { source, name } => gff::DirectiveBuf::new("genome-build", Some(Value::GenomeBuild(value::GenomeBuild::new(source.as_bytes(), name.as_bytes())))),
+            GffDirective::Other { key, value } => gff::DirectiveBuf::new(key.as_bytes(), value.as_ref().map(|v| Value::String(BString::from(v.as_bytes())))),
+        })
+    }
+
+    pub fn render(&self) -> Vec<u8> {
+        let (k, v) = self.key_value();
+        let mut out = b"##".to_vec();
+        out.extend_from_slice(k.as_bytes());
+        if let Some(v) = v {
+            out.push(b' ');
+            out.extend_from_slice(v.as_bytes());
+        }
+        out
+    }
+
+    pub fn canonical_text(&self) -> String {
+        let (k, v) = self.key_value();
+        format!("directive key={k:?} value={v:?}")
+    }
+}
+
+impl GffLine {
+    pub fn to_noodles(&self) -> Result<gff::LineBuf, String> {
+        Ok(match self {
+            GffLine::Directive(d) => gff::LineBuf::Directive(d.to_noodles()?),
+            GffLine::Comment(s) => gff::LineBuf::Comment(BString::from(s.as_bytes())),
+            GffLine::Record(r) => gff::LineBuf::Record(r.to_noodles()?),
+        })
+    }
+
+    pub fn render(&self) -> Vec<u8> {
+        match self {
+            GffLine::Directive(d) => d.render(),
+            GffLine::Comment(s) => {
+                let mut v = b"#".to_vec();
+                v.extend_from_slice(s.as_bytes());
+                v
+            }
+            GffLine::Record(r) => r.render_gff3(),
+        }
+    }
+
+    pub fn canonical_text(&self) -> String {
+        match self {
+            GffLine::Directive(d) => d.canonical_text(),
+            GffLine::Comment(s) => format!("comment {s:?}"),
+            GffLine::Record(r) => r.canonical_text(),
+        }
+    }
+}
+
+impl GffDoc {
+    pub fn records(&self) -> impl Iterator<Item = &FeatRec> {
+        self.lines.iter().filter_map(|l| match l {
+            GffLine::Record(r) => Some(r),
+            _ => None,
+        })
+    }
+
+    /// Harness-built text; `crlf` selects the terminator, `blank_every` inserts an empty line
+    /// after every n-th line (parsers must ignore blank lines).
+    pub fn render(&self, crlf: bool, blank_every: Option<usize>) -> Vec<u8> {
+        let nl: &[u8] = if crlf { b"\r\n" } else { b"\n" };
+        let mut out = Vec::new();
+        for (i, l) in self.lines.iter().enumerate() {
+            out.extend_from_slice(&l.render());
+            out.extend_from_slice(nl);
+            if let Some(n) = blank_every {
+                if n > 0 && (i + 1) % n == 0 {
+                    out.extend_from_slice(nl);
+                }
+            }
+        }
+        out
+    }
+
+    pub fn to_noodles(&self) -> Result<Vec<gff::LineBuf>, String> {
+        self.lines.iter().map(|l| l.to_noodles()).collect()
+    }
+
+    pub fn write_with_noodles_to<W: Write>(&self, w: W) -> io::Result<W> {
+        let lines = self.to_noodles().map_err(|e| io::Error::new(io::ErrorKind::InvalidInput, e))?;
+        let mut writer = gff::io::Writer::new(w);
+        for l in &lines {
+            writer.write_line(l)?;
+        }
+        Ok(writer.into_inner())
+    }
+
+    pub fn write_with_noodles(&self) -> io::Result<Vec<u8>> {
+        self.write_with_noodles_to(Vec::new())
+    }
+}
+
+fn token(max: usize) -> BoxedStrategy<String> {
+    let ch = chars_from(vec![(8, alnum()), (2, vec!['.', '_', '-', ':', '|', '/'])]);
+    string_of(ch, 1, max)
+}
+
+pub fn gff_directive() -> BoxedStrategy<GffDirective> {
+    let mut text = graph();
+    text.push(' ');
+    let value = string_of(chars_from(vec![(8, text), (1, non_ascii())]), 0, 16).prop_map(|s| s.trim_end_matches('\r').to_string());
+    prop_oneof![
+        2 => (prop_oneof![4 => Just(3u32), 1 => 0u32..=9], proptest::option::of((0u32..30, proptest::option::of(0u32..30)))).prop_map(|(major, mp)| GffDirective::Version { major, minor: mp.map(|m| m.0), patch: mp.and_then(|m| m.1) }),
+        2 => (token(8), coords()).prop_map(|(name, (start, end))| GffDirective::SequenceRegion { name, start, end }),
+        1 => (token(6), token(8)).prop_map(|(source, name)| GffDirective::GenomeBuild { source, name }),
+        3 => (
+            prop_oneof![2 => proptest::sample::select(vec!["feature-ontology", "attribute-ontology", "source-ontology", "species", "#"]).prop_map(String::from), 2 => token(10)],
+            proptest::option::weighted(0.7, value)
+        )
+            // `###` carries no value; a FASTA section is not part of this model
+            .prop_map(|(key, value)| if key == "#" { GffDirective::Other { key, value: None } } else if key == "FASTA" { GffDirective::Other { key: "FASTA_".into(), value } } else { GffDirective::Other { key, value } }),
+    ]
+    .boxed()
+}
+
+pub fn gff_comment() -> BoxedStrategy<String> {
+    let mut text = graph();
+    text.push(' ');
+    text.push('\t');
+    string_of(chars_from(vec![(8, text), (1, non_ascii())]), 0, 20).prop_map(|s| s.trim_start_matches('#').to_string()).boxed()
+}
+
+/// `comments`: include comment lines (a recorded asymmetry of the pinned tree concerns them).
+pub fn gff_doc(max_lines: usize, seqid_plain_only: bool, comments: bool) -> BoxedStrategy<GffDoc> {
+    let mut arms: Vec<(u32, BoxedStrategy<GffLine>)> = vec![(8, gff3_rec(seqid_plain_only).prop_map(GffLine::Record).boxed()), (2, gff_directive().prop_map(GffLine::Directive).boxed())];
+    if comments {
+        arms.push((1, gff_comment().prop_map(GffLine::Comment).boxed()));
+    }
+    let line = proptest::strategy::Union::new_weighted(arms);
+    proptest::collection::vec(line, 1..=max_lines).prop_map(|lines| GffDoc { lines }).boxed()
+}
+
+// ------------------------------------------------------------------------------------------------
+// GTF documents
+
+#[derive(Clone, Debug, Serialize, Deserialize, PartialEq)]
+pub enum GtfLine {
+    /// text after the `#`; no line terminators
+    Comment(String),
+    Record(FeatRec),
+}
+
+#[derive(Clone, Debug, Serialize, Deserialize, PartialEq)]
+pub struct GtfDoc {
+    pub lines: Vec<GtfLine>,
+}
+
+impl GtfLine {
+    pub fn to_noodles(&self) -> Result<gtf::LineBuf, String> {
+        Ok(match self {
+            GtfLine::Comment(s) => gtf::LineBuf::Comment(BString::from(s.as_bytes())),
+            GtfLine::Record(r) => gtf::LineBuf::Record(r.to_noodles()?),
+        })
+    }
+    pub fn render(&self) -> Vec<u8> {
+        match self {
+            GtfLine::Comment(s) => {
+                let mut v = b"#".to_vec();
+                v.extend_from_slice(s.as_bytes());
+                v
+            }
+            GtfLine::Record(r) => r.render_gtf(),
+        }
+    }
+    pub fn canonical_text(&self) -> String {
+        match self {
+            GtfLine::Comment(s) => format!("comment {s:?}"),
+            GtfLine::Record(r) => r.canonical_text(),
+        }
+    }
+}
+
+impl GtfDoc {
+    pub fn records(&self) -> impl Iterator<Item = &FeatRec> {
+        self.lines.iter().filter_map(|l| match l {
+            GtfLine::Record(r) => Some(r),
+            _ => None,
+        })
+    }
+
+    pub fn render(&self, crlf: bool) -> Vec<u8> {
+        self.render_with(crlf, false)
+    }
+
+    pub fn render_with(&self, crlf: bool, bare_numbers: bool) -> Vec<u8> {
+        let nl: &[u8] = if crlf { b"\r\n" } else { b"\n" };
+        let mut out = Vec::new();
+        for l in &self.lines {
+            match l {
+                GtfLine::Record(r) => out.extend_from_slice(&r.render_gtf_with(bare_numbers)),
+                _ => out.extend_from_slice(&l.render()),
+            }
+            out.extend_from_slice(nl);
+        }
+        out
+    }
+
+    /// Replace every `"` inside attribute values by `'` (a value containing `"` does not survive
+    /// the pinned reader — recorded finding of C18 — and can make `line_bufs()` panic).
+    pub fn strip_quotes(&mut self) {
+        for l in &mut self.lines {
+            if let GtfLine::Record(r) = l {
+                for (_, vs) in &mut r.attrs {
+                    for v in vs {
+                        *v = v.replace('"', "'");
+                    }
+                }
+            }
+        }
+    }
+
+    pub fn to_noodles(&self) -> Result<Vec<gtf::LineBuf>, String> {
+        self.lines.iter().map(|l| l.to_noodles()).collect()
+    }
+
+    pub fn write_with_noodles_to<W: Write>(&self, w: W) -> io::Result<W> {
+        let lines = self.to_noodles().map_err(|e| io::Error::new(io::ErrorKind::InvalidInput, e))?;
+        let mut writer = gtf::io::Writer::new(w);
+        for l in &lines {
+            writer.write_line(l)?;
+        }
+        Ok(writer.into_inner())
+    }
+
+    pub fn write_with_noodles(&self) -> io::Result<Vec<u8>> {
+        self.write_with_noodles_to(Vec::new())
+    }
+}
+
+/// `allow_quotes = false` keeps `"` out of attribute values (see `GtfDoc::strip_quotes`).
+pub fn gtf_doc(max_lines: usize, allow_quotes: bool) -> BoxedStrategy<GtfDoc> {
+    let mut text = graph();
+    text.push(' ');
+    let comment = string_of(chars_from(vec![(8, text), (1, non_ascii())]), 0, 20);
+    let line = prop_oneof![9 => gtf_rec().prop_map(GtfLine::Record), 1 => comment.prop_map(GtfLine::Comment)];
+    proptest::collection::vec(line, 1..=max_lines)
+        .prop_map(move |lines| {
+            let mut d = GtfDoc { lines };
+            if !allow_quotes {
+                d.strip_quotes();
+            }
+            d
+        })
+        .boxed()
+}
+
+// ================================================================================================
+// BED
+
+#[derive(Clone, Debug, Serialize, Deserialize, PartialEq)]
+pub enum BedValue {
+    Int(i64),
+    UInt(u64),
+    /// IEEE-754 bits of a finite f64
+    FloatBits(u64),
+    /// `' '..='~'`
+    Char(u8),
+    /// `[ -~]*`
+    Str(String),
+}
+
+impl BedValue {
+    /// The column text the BED writer must produce for this value.
+    pub fn text(&self) -> String {
+        match self {
+            BedValue::Int(n) => n.to_string(),
+            BedValue::UInt(n) => n.to_string(),
+            BedValue::FloatBits(b) => format!("{}", f64::from_bits(*b)),
+            BedValue::Char(c) => (*c as char).to_string(),
+            BedValue::Str(s) => s.clone(),
+        }
+    }
+    pub fn to_noodles(&self) -> bed::feature::record_buf::other_fields::Value {
+        use bed::feature::record_buf::other_fields::Value as V;
+        match self {
+            BedValue::Int(n) => V::Int64(*n),
+            BedValue::UInt(n) => V::UInt64(*n),
+            BedValue::FloatBits(b) => V::Float64(f64::from_bits(*b)),
+            BedValue::Char(c) => V::Character(*c),
+            BedValue::Str(s) => V::String(BString::from(s.as_bytes())),
+        }
+    }
+}
+
+#[derive(Clone, Debug, Serialize, Deserialize, PartialEq)]
+pub struct BedRec {
+    /// `[A-Za-z0-9_]{1,255}`
+    pub chrom: String,
+    /// 1-based start (the file carries `start - 1`)
+    pub start: u64,
+    /// `None` is written as `0`
+    pub end: Option<u64>,
+    /// `[ -~]{1,255}`, never `.`; used when the document has ≥4 standard fields
+    pub name: Option<String>,
+    /// used when ≥5 standard fields
+    pub score: u16,
+    /// `Some(true)` = forward; used when 6 standard fields
+    pub strand: Option<bool>,
+    /// columns after the standard ones (BED7..BED12 and beyond)
+    pub other: Vec<BedValue>,
+}
+
+#[derive(Clone, Debug, Serialize, Deserialize, PartialEq)]
+pub struct BedDoc {
+    /// number of standard fields the reader/writer is instantiated with: 3..=6
+    pub n: u8,
+    pub records: Vec<BedRec>,
+    /// comment lines (`#…`, text after the `#`) emitted by `render()` before record i
+    pub comments: Vec<(u16, String)>,
+}
+
+impl BedRec {
+    /// The columns of the line for a document with `n` standard fields.
+    pub fn columns(&self, n: u8) -> Vec<String> {
+        let mut c = vec![self.chrom.clone(), (self.start - 1).to_string(), self.end.map(|e| e.to_string()).unwrap_or_else(|| "0".into())];
+        if n >= 4 {
+            c.push(self.name.clone().unwrap_or_else(|| ".".into()));
+        }
+        if n >= 5 {
+            c.push(self.score.to_string());
+        }
+        if n >= 6 {
+            c.push(match self.strand {
+                Some(true) => "+".into(),
+                Some(false) => "-".into(),
+                None => ".".into(),
+            });
+        }
+        c.extend(self.other.iter().map(|v| v.text()));
+        c
+    }
+
+    pub fn render(&self, n: u8) -> Vec<u8> {
+        self.columns(n).join("\t").into_bytes()
+    }
+
+    /// Standard fields beyond `n` are not part of the value at that arity.
+    pub fn canonical_text(&self, n: u8) -> String {
+        format!("bed{} {}", n, self.columns(n).join("|"))
+    }
+}
+
+macro_rules! bed_to_noodles {
+    ($name:ident, $n:literal, |$b:ident, $r:ident| $extra:block) => {
+        pub fn $name(&self) -> Result<bed::feature::RecordBuf<$n>, String> {
+            let $r = self;
+            let mut $b = bed::feature::RecordBuf::<$n>::builder().set_reference_sequence_name($r.chrom.as_bytes()).set_feature_start(pos($r.start)?);
+            if let Some(e) = $r.end {
+                $b = $b.set_feature_end(pos(e)?);
+            }
+            $extra
+            let other: Vec<_> = $r.other.iter().map(|v| v.to_noodles()).collect();
+            Ok($b.set_other_fields(other.into()).build())
+        }
+    };
+}
+
+impl BedRec {
+    bed_to_noodles!(to_noodles_3, 3, |b, r| {});
+    bed_to_noodles!(to_noodles_4, 4, |b, r| {
+        if let Some(n) = &r.name {
+            b = b.set_name(n.as_bytes());
+        }
+    });
+    bed_to_noodles!(to_noodles_5, 5, |b, r| {
+        if let Some(n) = &r.name {
+            b = b.set_name(n.as_bytes());
+        }
+        b = b.set_score(r.score);
+    });
+    bed_to_noodles!(to_noodles_6, 6, |b, r| {
+        if let Some(n) = &r.name {
+            b = b.set_name(n.as_bytes());
+        }
+        b = b.set_score(r.score);
+        if let Some(s) = r.strand {
+            b = b.set_strand(if s { bed::feature::record::Strand::Forward } else { bed::feature::record::Strand::Reverse });
+        }
+    });
+}
+
+impl BedDoc {
+    pub fn render(&self, crlf: bool) -> Vec<u8> {
+        let nl: &[u8] = if crlf { b"\r\n" } else { b"\n" };
+        let mut out = Vec::new();
+        for (i, r) in self.records.iter().enumerate() {
+            for (at, text) in &self.comments {
+                if *at as usize == i {
+                    out.push(b'#');
+                    out.extend_from_slice(text.as_bytes());
+                    out.extend_from_slice(nl);
+                }
+            }
+            out.extend_from_slice(&r.render(self.n));
+            out.extend_from_slice(nl);
+        }
+        out
+    }
+
+    pub fn write_with_noodles_to<W: Write>(&self, w: W) -> io::Result<W> {
+        let inv = |e: String| io::Error::new(io::ErrorKind::InvalidInput, e);
+        match self.n {
+            3 => {
+                let mut writer = bed::io::Writer::<3, W>::new(w);
+                for r in &self.records {
+                    writer.write_feature_record(&r.to_noodles_3().map_err(inv)?)?;
+                }
+                Ok(writer.into_inner())
+            }
+            4 => {
+                let mut writer = bed::io::Writer::<4, W>::new(w);
+                for r in &self.records {
+                    writer.write_feature_record(&r.to_noodles_4().map_err(inv)?)?;
+                }
+                Ok(writer.into_inner())
+            }
+            5 => {
+                let mut writer = bed::io::Writer::<5, W>::new(w);
+                for r in &self.records {
+                    writer.write_feature_record(&r.to_noodles_5().map_err(inv)?)?;
+                }
+                Ok(writer.into_inner())
+            }
+            _ => {
+                let mut writer = bed::io::Writer::<6, W>::new(w);
+                for r in &self.records {
+                    writer.write_feature_record(&r.to_noodles_6().map_err(inv)?)?;
+                }
+                Ok(writer.into_inner())
+            }
+        }
+    }
+
+    pub fn write_with_noodles(&self) -> io::Result<Vec<u8>> {
+        self.write_with_noodles_to(Vec::new())
+    }
+}
+
+fn bed_string(min: usize, max: usize) -> BoxedStrategy<String> {
+    let mut all = graph();
+    all.push(' ');
+    string_of(chars_from(vec![(6, alnum()), (3, all)]), min, max)
+}
+
+pub fn bed_value() -> BoxedStrategy<BedValue> {
+    let f = prop_oneof![
+        proptest::sample::select(vec![0.0f64, -0.0, 1.0, 0.5, 0.1, -2.25, 1e-7, 1e21, 1.7976931348623157e308, 5e-324, 123456789.125]),
+        any::<u64>().prop_map(|b| {
+            let f = f64::from_bits(b);
+            if f.is_finite() { f } else { 1.5 }
+        })
+    ];
+    prop_oneof![
+        2 => prop_oneof![Just(i64::MIN), Just(i64::MAX), Just(0i64), -1000i64..=1000, any::<i64>()].prop_map(BedValue::Int),
+        2 => prop_oneof![Just(u64::MAX), Just(0u64), 0u64..=100_000, any::<u64>()].prop_map(BedValue::UInt),
+        1 => f.prop_map(|f| BedValue::FloatBits(f.to_bits())),
+        1 => (b' '..=b'~').prop_map(BedValue::Char),
+        4 => prop_oneof![
+            3 => bed_string(0, 12),
+            1 => proptest::sample::select(vec!["255,0,0", "0", ".", "", " ", "10,20,", "0,30,", "+", "#x"]).prop_map(String::from)
+        ]
+        .prop_map(BedValue::Str),
+    ]
+    .boxed()
+}
+
+/// The six BED7..BED12 columns (thickStart, thickEnd, itemRgb, blockCount, blockSizes,
+/// blockStarts) consistent with `start`/`end`.
+fn bed12_tail(start0: u64, end: u64, seed: u32) -> Vec<BedValue> {
+    let mut r = XorShift::new(seed as u64 + 12);
+    let span = end.saturating_sub(start0).max(1);
+    let blocks = 1 + (r.next() % 3);
+    let size = (span / (2 * blocks)).max(1);
+    let sizes: Vec<String> = (0..blocks).map(|_| size.to_string()).collect();
+    let starts: Vec<String> = (0..blocks).map(|i| (i * 2 * size).to_string()).collect();
+    vec![
+        BedValue::UInt(start0),
+        BedValue::UInt(end),
+        BedValue::Str(if r.next() % 2 == 0 { "0".into() } else { format!("{},{},{}", r.next() % 256, r.next() % 256, r.next() % 256) }),
+        BedValue::Int(blocks as i64),
+        BedValue::Str(format!("{},", sizes.join(","))),
+        BedValue::Str(starts.join(",")),
+    ]
+}
+
+pub fn bed_rec() -> BoxedStrategy<BedRec> {
+    let mut id = alnum();
+    id.push('_');
+    let chrom = prop_oneof![
+        8 => string_of(proptest::sample::select(id.clone()).boxed(), 1, 10),
+        1 => string_of(proptest::sample::select(id).boxed(), 255, 255),
+        1 => proptest::sample::select(vec!["track", "browser", "chr1", "0", "_"]).prop_map(String::from)
+    ];
+    let name = proptest::option::weighted(
+        0.8,
+        prop_oneof![8 => bed_string(1, 14), 1 => bed_string(255, 255), 1 => proptest::sample::select(vec!["..", " ", ". ", "0", "#", "a b"]).prop_map(String::from)].prop_map(|s| if s == "." { "._".to_string() } else { s }),
+    );
+    let score = prop_oneof![2 => proptest::sample::select(vec![0u16, 1, 9, 10, 999, 1000, 1001, 65535]), 2 => 0u16..=1000, 1 => any::<u16>()];
+    let other = prop_oneof![
+        4 => Just((0u8, Vec::new())).boxed(),
+        4 => proptest::collection::vec(bed_value(), 1..=8).prop_map(|v| (0u8, v)).boxed(),
+        2 => Just((1u8, Vec::new())).boxed(),
+    ];
+    (chrom, coords(), prop_oneof![9 => Just(true), 1 => Just(false)], name, score, proptest::option::of(any::<bool>()), other, any::<u32>())
+        .prop_map(|(chrom, (start, end), has_end, name, score, strand, (bed12, other), seed)| {
+            let other = if bed12 == 1 { bed12_tail(start - 1, end, seed) } else { other };
+            BedRec { chrom, start, end: if has_end { Some(end) } else { None }, name, score, strand, other }
+        })
+        .boxed()
+}
+
+pub fn bed_doc(max_records: usize) -> BoxedStrategy<BedDoc> {
+    let mut text = graph();
+    text.push(' ');
+    text.push('\t');
+    let comment = (any::<u16>(), string_of(proptest::sample::select(text).boxed(), 0, 12));
+    (3u8..=6, proptest::collection::vec(bed_rec(), 1..=max_records), proptest::collection::vec(comment, 0..=2))
+        .prop_map(|(n, records, comments)| {
+            let k = records.len();
+            BedDoc { n, records, comments: comments.into_iter().map(|(at, t)| (crate::engine::pick_idx(at, k) as u16, t)).collect() }
+        })
+        .boxed()
+}
+
+// ================================================================================================
+// Reading back through noodles as canonical text (for transcripts). Each returns the canonical
+// texts of the items read, in order, and the error that ended reading (if any).
+//
+// Recorded findings of the pinned tree that show up in these texts (see KNOWN_FINDINGS, C18/C11):
+// a GFF3 seqid comes back percent-encoded, a GFF3 comment comes back with its `#`, a GTF value
+// containing `"` is cut (or panics inside `line_bufs()`), a CRLF FASTQ name may keep its CR when
+// the pair is split across two `fill_buf` windows. Relations that compare two runs of the same
+// reader are unaffected; relations that compare with the document should generate with
+// `gff_doc(_, true, false)` and `gtf_doc(_, false)`.
+
+pub fn fasta_read_transcript<R: std::io::BufRead>(r: R) -> (Vec<String>, Option<String>) {
+    let mut reader = fasta::io::Reader::new(r);
+    let mut out = Vec::new();
+    for rec in reader.records() {
+        match rec {
+            Ok(rec) => out.push(canonical_fasta_record(&rec)),
+            Err(e) => return (out, Some(e.to_string())),
+        }
+    }
+    (out, None)
+}
+
+pub fn fastq_read_transcript<R: std::io::BufRead>(r: R) -> (Vec<String>, Option<String>) {
+    let mut reader = fastq::io::Reader::new(r);
+    let mut out = Vec::new();
+    for rec in reader.records() {
+        match rec {
+            Ok(rec) => out.push(canonical_fastq_record(&rec)),
+            Err(e) => return (out, Some(e.to_string())),
+        }
+    }
+    (out, None)
+}
+
+pub fn canonical_gff_line(l: &gff::LineBuf) -> String {
+    use gff::directive_buf::Value;
+    match l {
+        gff::LineBuf::Directive(d) => {
+            let v = d.value().map(|v| match v {
+                Value::String(s) => String::from_utf8_lossy(s).into_owned(),
+                Value::GffVersion(x) => x.to_string(),
+                Value::SequenceRegion(x) => x.to_string(),
+                Value::GenomeBuild(x) => x.to_string(),
+            });
+            format!("directive key={:?} value={v:?}", String::from_utf8_lossy(d.key()))
+        }
+        gff::LineBuf::Comment(s) => format!("comment {:?}", String::from_utf8_lossy(s)),
+        gff::LineBuf::Record(r) => FeatRec::from_noodles(r).canonical_text(),
+    }
+}
+
+pub fn gff_read_transcript<R: std::io::BufRead>(r: R) -> (Vec<String>, Option<String>) {
+    let mut reader = gff::io::Reader::new(r);
+    let mut out = Vec::new();
+    for l in reader.line_bufs() {
+        match l {
+            Ok(l) => out.push(canonical_gff_line(&l)),
+            Err(e) => return (out, Some(e.to_string())),
+        }
+    }
+    (out, None)
+}
+
+pub fn gtf_read_transcript<R: std::io::BufRead>(r: R) -> (Vec<String>, Option<String>) {
+    let mut reader = gtf::io::Reader::new(r);
+    let mut out = Vec::new();
+    for l in reader.line_bufs() {
+        match l {
+            Ok(gtf::LineBuf::Comment(s)) => out.push(format!("comment {:?}", String::from_utf8_lossy(&s))),
+            Ok(gtf::LineBuf::Record(r)) => out.push(FeatRec::from_noodles(&r).canonical_text()),
+            Err(e) => return (out, Some(e.to_string())),
+        }
+    }
+    (out, None)
+}
+
+macro_rules! bed_transcript_arm {
+    ($n:literal, $r:ident, $rec:ident, $cols:ident, $extra:block) => {{
+        let mut reader = bed::io::Reader::<$n, _>::new($r);
+        let mut $rec = bed::Record::<$n>::default();
+        let mut out = Vec::new();
+        loop {
+            match reader.read_record(&mut $rec) {
+                Ok(0) => return (out, None),
+                Ok(_) => {}
+                Err(e) => return (out, Some(e.to_string())),
+            }
+            let step = (|| -> io::Result<Vec<String>> {
+                let mut $cols: Vec<String> = vec![
+                    String::from_utf8_lossy($rec.reference_sequence_name()).into_owned(),
+                    (usize::from($rec.feature_start()?) - 1).to_string(),
+                    $rec.feature_end().transpose()?.map(|p| usize::from(p).to_string()).unwrap_or_else(|| "0".into()),
+                ];
+                $extra
+                $cols.extend($rec.other_fields().iter().map(|s| String::from_utf8_lossy(s).into_owned()));
+                Ok($cols)
+            })();
+            match step {
+                Ok(cols) => out.push(format!("bed{} {}", $n, cols.join("|"))),
+                Err(e) => return (out, Some(e.to_string())),
+            }
+        }
+    }};
+}
+
+/// BED read with `n` standard fields; the texts equal `BedRec::canonical_text(n)`.
+pub fn bed_read_transcript<R: std::io::BufRead>(n: u8, r: R) -> (Vec<String>, Option<String>) {
+    let name = |n: Option<&bstr::BStr>| n.map(|s| String::from_utf8_lossy(s).into_owned()).unwrap_or_else(|| ".".into());
+    let strand = |s: Option<bed::feature::record::Strand>| match s {
+        Some(bed::feature::record::Strand::Forward) => "+".to_string(),
+        Some(bed::feature::record::Strand::Reverse) => "-".to_string(),
+        None => ".".to_string(),
+    };
+    match n {
+        3 => bed_transcript_arm!(3, r, rec, cols, {}),
+        4 => bed_transcript_arm!(4, r, rec, cols, {
+            cols.push(name(rec.name()));
+        }),
+        5 => bed_transcript_arm!(5, r, rec, cols, {
+            cols.push(name(rec.name()));
+            cols.push(rec.score()?.to_string());
+        }),
+        _ => bed_transcript_arm!(6, r, rec, cols, {
+            cols.push(name(rec.name()));
+            cols.push(rec.score()?.to_string());
+            cols.push(strand(rec.strand()?));
+        }),
+    }
+}
